@@ -2,7 +2,7 @@ SPECIFICATION Spec
 CONSTANTS
   Fmt = "pbf"
   MaxFaults = 2
-  WithTrunc = TRUE
+  WithTrunc = FALSE
   TruncAfterFault = FALSE
   ExportHist = TRUE
 INVARIANTS TypeOK Applicable DistinctPositions TruncOK Export
